@@ -76,13 +76,13 @@ theorem markTo_cons_unwritten (F : Frame) (fs : List Frame) (h : F.written = fal
 mutual
 theorem emit_call (cfg : Cfg) (hp : Plain cfg) (k : Kind) :
     ∀ (c : Call) (s : St) (d : Nat), Good s d → d + c.height ≤ cfg.maxStack →
-      d + c.height ≤ cfg.depthOpt → c.timed →
+      d + c.height ≤ cfg.depthOpt → c.okFor cfg →
       (runCall cfg k s c).out = s.out ++ pending s.frames ++ evCall d c ∧
       (runCall cfg k s c).frames = markTo s.frames ∧
       Good (runCall cfg k s c) d
   | .node f t0 t1 kids, s, d, hg, hm, hd, ht => by
     simp only [Call.height] at hm hd
-    simp only [Call.timed] at ht
+    simp only [Call.okFor] at ht
     obtain ⟨e1, e2, e3, e4⟩ := entry_plain cfg hp k s d f t0 hg (by omega) (by omega)
     have hk := emit_calls cfg hp k kids (entry cfg k s f t0).1 (d + 1) e4 (by omega) (by omega) ht.2
     have hFw : (plainFrame k f t0 d).written = false := rfl
@@ -90,8 +90,8 @@ theorem emit_call (cfg : Cfg) (hp : Plain cfg) (k : Kind) :
     cases kids with
     | nil =>
       simp only [runCalls]
-      obtain ⟨x1, x2, x3⟩ := exit_plain cfg hp k (entry cfg k s f t0).1 d f t0 t1 false s.frames
-        (by rw [e3]; rfl) e4 ht.1 (by simp)
+      obtain ⟨x1, x2, x3⟩ := exit_plain' cfg hp k (entry cfg k s f t0).1 d f t0 t1 false s.frames
+        (by rw [e3]; rfl) e4 ht.1.2 ht.1.1 (by simp)
       refine ⟨?_, x2, x3⟩
       rw [x1, e2]
       simp [evCall, evCalls, entryRec, plainFrame]
@@ -100,15 +100,15 @@ theorem emit_call (cfg : Cfg) (hp : Plain cfg) (k : Kind) :
       simp only at k1 k2
       rw [e3, markTo_cons_unwritten _ _ hFw] at k2
       rw [e3, pending_cons_unwritten _ _ hFw, e2] at k1
-      obtain ⟨x1, x2, x3⟩ := exit_plain cfg hp k
+      obtain ⟨x1, x2, x3⟩ := exit_plain' cfg hp k
         (runCalls cfg k (entry cfg k s f t0).1 (.cons c rest)) d f t0 t1 true (markTo s.frames)
-        (by rw [k2]; rfl) k3 ht.1 (fun _ => markTo_markTo _)
+        (by rw [k2]; rfl) k3 ht.1.2 ht.1.1 (fun _ => markTo_markTo _)
       refine ⟨?_, by rw [x2, markTo_markTo], x3⟩
       rw [x1, k1]
       simp [evCall, entryRec, plainFrame]
 theorem emit_calls (cfg : Cfg) (hp : Plain cfg) (k : Kind) :
     ∀ (cs : Calls) (s : St) (d : Nat), Good s d → d + cs.height ≤ cfg.maxStack →
-      d + cs.height ≤ cfg.depthOpt → cs.timed →
+      d + cs.height ≤ cfg.depthOpt → cs.okFor cfg →
       (runCalls cfg k s cs).out =
         s.out ++ (match cs with | .nil => [] | .cons _ _ => pending s.frames) ++ evCalls d cs ∧
       (runCalls cfg k s cs).frames = (match cs with | .nil => s.frames | .cons _ _ => markTo s.frames) ∧
@@ -116,7 +116,7 @@ theorem emit_calls (cfg : Cfg) (hp : Plain cfg) (k : Kind) :
   | .nil, s, d, hg, _, _, _ => by simp [runCalls, evCalls, hg]
   | .cons c rest, s, d, hg, hm, hd, ht => by
     simp only [Calls.height] at hm hd
-    simp only [Calls.timed] at ht
+    simp only [Calls.okFor] at ht
     obtain ⟨c1, c2, c3⟩ := emit_call cfg hp k c s d hg (by omega) (by omega) ht.1
     obtain ⟨r1, r2, r3⟩ := emit_calls cfg hp k rest (runCall cfg k s c) d c3 (by omega) (by omega) ht.2
     simp only [runCalls]
@@ -142,10 +142,33 @@ theorem c02_emit_exact (cfg : Cfg) (hp : Plain cfg) (k : Kind) (cs : Calls)
     (runCalls cfg k (St.init cfg) cs).frames = [] := by
   have hg : Good (St.init cfg) 0 := by
     constructor <;> simp [St.init, hmin, hen, NoSkip]
-  obtain ⟨h1, h2, _⟩ := emit_calls cfg hp k cs (St.init cfg) 0 hg (by omega) (by omega) ht
+  obtain ⟨h1, h2, _⟩ := emit_calls cfg hp k cs (St.init cfg) 0 hg (by omega) (by omega) (okFors_of_timed cfg cs ht)
   constructor
   · rw [h1]; cases cs <;> simp [St.init, pending]
   · rw [h2]; cases cs <;> simp [St.init, markTo]
+
+/-- … and for the repaired exit hooks (`s4fixed`, finding S4: the time test is `>=`) without any
+    assumption on durations: also calls whose entry and exit read the same clock value (and even
+    a clock that stepped back) are recorded — nothing missing.  The only clock assumption left
+    is that an exit does not read 0, libmcount's marker of a still open call. -/
+theorem c02_emit_exact_any_duration (cfg : Cfg) (hp : Plain cfg) (hf : cfg.s4fixed = true) (k : Kind) (cs : Calls)
+    (hm : cs.height ≤ cfg.maxStack) (hd : cs.height ≤ cfg.depthOpt) (he : cs.ended)
+    (hmin : cfg.minSize = 0) (hen : cfg.enabled0 = true) :
+    (runCalls cfg k (St.init cfg) cs).out = evCalls 0 cs ∧
+    (runCalls cfg k (St.init cfg) cs).frames = [] := by
+  have hg : Good (St.init cfg) 0 := by
+    constructor <;> simp [St.init, hmin, hen, NoSkip]
+  obtain ⟨h1, h2, _⟩ := emit_calls cfg hp k cs (St.init cfg) 0 hg (by omega) (by omega) (okFors_of_ended cfg hf cs he)
+  constructor
+  · rw [h1]; cases cs <;> simp [St.init, pending]
+  · rw [h2]; cases cs <;> simp [St.init, markTo]
+
+/-- before the repair a call of zero measured duration was silently dropped (pre-fix witness) -/
+theorem c02_prefix_zero_duration_witness :
+    (runCalls { s4fixed := false } .pg (St.init { s4fixed := false }) (.cons (.node 1 10 10 .nil) .nil)).out = [] ∧
+    (runCalls {} .pg (St.init {}) (.cons (.node 1 10 10 .nil) .nil)).out =
+      [⟨10, 0, 0, 1⟩, ⟨10, 1, 0, 1⟩] := by
+  constructor <;> decide
 
 /-- The same for a prefix of an execution (calls still open): written ++ owed
     = eager trace, at every call boundary inside any tree. This is
@@ -159,7 +182,7 @@ theorem c02_emit_prefix (cfg : Cfg) (hp : Plain cfg) (k : Kind) (cs : Calls) (f 
     s.out ++ pending s.frames = evCalls 0 cs ++ [{ time := t0, type := 0, depth := 0, addr := f }] := by
   have hg : Good (St.init cfg) 0 := by
     constructor <;> simp [St.init, hmin, hen, NoSkip]
-  obtain ⟨h1, h2, h3⟩ := emit_calls cfg hp k cs (St.init cfg) 0 hg (by omega) (by omega) ht
+  obtain ⟨h1, h2, h3⟩ := emit_calls cfg hp k cs (St.init cfg) 0 hg (by omega) (by omega) (okFors_of_timed cfg cs ht)
   obtain ⟨e1, e2, e3, e4⟩ := entry_plain cfg hp k _ 0 f t0 h3 hm1 hd1
   have hfr : (runCalls cfg k (St.init cfg) cs).frames = [] := by
     rw [h2]; cases cs <;> simp [St.init, markTo]
@@ -182,7 +205,21 @@ theorem c02_overflow_drop (cfg : Cfg) (hp : Plain cfg) (k : Kind) (hdo : cfg.max
   have hg : GoodW (St.init cfg) 0 := by
     refine ⟨?_, trivial, fun _ => rfl, fun f hf => by simp [St.init] at hf⟩
     constructor <;> simp [St.init, hmin, hen, NoSkip]
-  obtain ⟨h1, h2, _⟩ := over_calls cfg hp k hdo cs (St.init cfg) 0 hg (Nat.zero_le _) ht
+  obtain ⟨h1, h2, _⟩ := over_calls cfg hp k hdo cs (St.init cfg) 0 hg (Nat.zero_le _) (okFors_of_timed cfg cs ht)
+  have hfr : (runCalls cfg k (St.init cfg) cs).frames = [] := by
+    simpa [St.init] using h2
+  simp only [eager, hfr, pending, List.append_nil] at h1
+  rw [h1]; simp [St.init, pending]
+
+/-- the same for the repaired exit hooks without any assumption on durations -/
+theorem c02_overflow_drop_any_duration (cfg : Cfg) (hp : Plain cfg) (hf : cfg.s4fixed = true) (k : Kind)
+    (hdo : cfg.maxStack ≤ cfg.depthOpt) (cs : Calls)
+    (he : cs.ended) (hmin : cfg.minSize = 0) (hen : cfg.enabled0 = true) :
+    (runCalls cfg k (St.init cfg) cs).out = evCallsB 0 cfg.maxStack cs := by
+  have hg : GoodW (St.init cfg) 0 := by
+    refine ⟨?_, trivial, fun _ => rfl, fun f hf => by simp [St.init] at hf⟩
+    constructor <;> simp [St.init, hmin, hen, NoSkip]
+  obtain ⟨h1, h2, _⟩ := over_calls cfg hp k hdo cs (St.init cfg) 0 hg (Nat.zero_le _) (okFors_of_ended cfg hf cs he)
   have hfr : (runCalls cfg k (St.init cfg) cs).frames = [] := by
     simpa [St.init] using h2
   simp only [eager, hfr, pending, List.append_nil] at h1
@@ -196,7 +233,7 @@ theorem c02_overflow_cyg_balanced (cfg : Cfg) (hp : Plain cfg) (hdo : cfg.maxSta
   have hg : GoodW (St.init cfg) 0 := by
     refine ⟨?_, trivial, fun _ => rfl, fun f hf => by simp [St.init] at hf⟩
     constructor <;> simp [St.init, hmin, hen, NoSkip]
-  obtain ⟨_, h2, h3⟩ := over_calls cfg hp .cyg hdo cs (St.init cfg) 0 hg (Nat.zero_le _) ht
+  obtain ⟨_, h2, h3⟩ := over_calls cfg hp .cyg hdo cs (St.init cfg) 0 hg (Nat.zero_le _) (okFors_of_timed cfg cs ht)
   exact ⟨by simpa [St.init] using h2, h3.good.over⟩
 
 /-- non-vacuity of `c02_overflow_drop`: recursion three deep with --max-stack 2 keeps
